@@ -178,6 +178,27 @@ def h_theta_2d(ctx, symmetric):
     ctx.prove("C19.default_state_rates_sum_to_theta.2d", EQ(tot, theta), info={"symmetric": symmetric}, replay=rp, timeout_ms=60000)
 
 
+def replay_inclusion_exclusion(sc):
+    """distinct HEM margins + Clayton, distinct thresholds: closed-form theta against the inclusion-exclusion of the half-space masses"""
+    import rpylib.model.levymodel.mixed.hem as HEM
+    from rpylib.distribution.levycopula import ClaytonCopula
+
+    d = sc["d"]
+    ms = [HEM.HEMModel(HEM.HEMParameters(sigma=0.1, p=0.4 + 0.1 * i, eta1=20.0 + i, eta2=25.0 - 3 * i, intensity=3.0 - 0.4 * i)) for i in range(d)]
+    lcm = LCM.LevyCopulaModel(models=ms, copula=ClaytonCopula(theta=0.7, eta=0.3))
+    ths = [-0.05, -0.12, -0.2][:d]
+    theta = float(CFC.CFLevyCopulaModel(lcm)._theta(ths))
+    tot = 0.0
+    for k in range(1, d + 1):
+        for idx in itertools.combinations(range(d), k):
+            if k == 1:
+                m = float(ms[idx[0]].mass(-INF, ths[idx[0]]))
+            else:
+                m = float(lcm._mass_nd([-INF] * k, [ths[i] for i in idx], list(idx)))
+            tot += m if k % 2 == 1 else -m
+    return abs(theta - tot) > 1e-9 * max(1.0, abs(tot)), f"HEM margins + Clayton(0.7, 0.3), thresholds {ths}: closed-form theta {theta!r}, inclusion-exclusion of the half-space masses {tot!r}"
+
+
 def h_inclusion_exclusion(ctx, d):
     """theta == mass of the union of the default half-spaces by inclusion-exclusion, each intersection measured by the real rectangle-mass code"""
     models = [A.abs_levy_model(ctx, f"nu{i}", sigma=0.0, a=0.0, finite_activity=False, finite_variation=True) for i in range(d)]
@@ -197,7 +218,7 @@ def h_inclusion_exclusion(ctx, d):
             else:
                 m = lcm._mass_nd(lo, hi, list(idx))
             tot = tot + (m if k % 2 == 1 else -m)
-    ctx.prove(f"C19.theta_is_inclusion_exclusion_of_half_space_masses.{d}d", EQ(theta, tot), info={"d": d})
+    ctx.prove(f"C19.theta_is_inclusion_exclusion_of_half_space_masses.{d}d", EQ(theta, tot), info={"d": d}, replay=(replay_inclusion_exclusion, lambda m: {"d": d}))
     if d == 2:
         # increasing in each threshold: theta(a1', a2) - theta(a1, a2) = nu((a1, a1'] x [a2, inf)) >= 0 (d-increasing axiom on that rectangle)
         b = ctx.real("a0_up")
